@@ -169,7 +169,7 @@ StepUniverse ==
   \cup {[ax |-> "child", k |-> "pi", ns |-> "", nm |-> tg, pos |-> p] : tg \in {"pi", "a"}, p \in 1..N}
   \cup {[ax |-> "attribute", k |-> "attr", ns |-> s, nm |-> "a", pos |-> 0] : s \in {"", "urn:n"}}
   \cup {[ax |-> "attribute", k |-> "attr", ns |-> XMLNS, nm |-> "lang", pos |-> 0]}
-  \cup {[ax |-> "namespace", k |-> "ns", ns |-> "", nm |-> pf, pos |-> 0] : pf \in {"xml", "", "p"}}
+  \cup {[ax |-> "namespace", k |-> "ns", ns |-> "", nm |-> pf, pos |-> 0] : pf \in {"xml", "", "p", "q"}}
 
 Next == \E st \in StepUniverse : Walk(st)
 
@@ -210,10 +210,24 @@ PosIsXDMPredicate ==
   HasBelow => \A st \in StepUniverse : st.pos \in {1, 2} =>
      Sel(cur, st) = X!FilterSeq(StepSeqX(cur, [st EXCEPT !.pos = 0]), PosStr(st.pos))
 
+(* namespace nodes as path subjects: the namespace nodes of an element are   *)
+(* keyed by prefix -- exactly one per prefix of {xml} + the caller's map,    *)
+(* also when that map names xml itself or binds two prefixes to one name -- *)
+(* their paths are pairwise distinct and each selects exactly its node       *)
+NsNodesLaw ==
+  IsElemX(cur) =>
+    LET S == AxisX("namespace", cur) IN
+    /\ Cardinality(S) = Cardinality(PrefixesOf(decl))
+    /\ Cardinality({m \in S : NsPfx(m) = "xml"}) = 1
+    /\ \A m \in S : /\ Eval(FnPath(m)) = {m}
+                    /\ Sel(cur, StepOf(m)) = {m}
+                    /\ \A m2 \in S : m2 # m => Text(FnPath(m2)) # Text(FnPath(m))
+    /\ decl = "pq" => \E m1, m2 \in S : m1 # m2 /\ NsUriOfPfx(NsPfx(m1)) = NsUriOfPfx(NsPfx(m2))
+
 IterAgreesCur == (cur \in 1..N /\ kind[cur] \in ElemK \cup PIK \cup {"c"}) => IterPos(cur) = PosOf(cur)
 
 Laws == /\ Covered /\ SoundFn /\ SoundDoc /\ SoundRel /\ SoundBare /\ SoundFrag /\ FragmentNeedsRootFn
-        /\ Injective /\ WalkIsPath /\ StepSelectsOne /\ PosIsXDMPredicate /\ IterAgreesCur
+        /\ Injective /\ WalkIsPath /\ StepSelectsOne /\ PosIsXDMPredicate /\ IterAgreesCur /\ NsNodesLaw
 
 (* refuted on purpose in the "impl" configuration (get_child_position as    *)
 (* written counts PIs of every target, and PIs named like the element)      *)
